@@ -105,6 +105,33 @@ COMMON = ["NextSync", "NextFuture", "BodyResume", "BodyStep", "FinalSuspend", "Y
 ASYNC = ["NextAsync", "ResumeAwt"]
 
 
+def alloc_replay(ctx):
+    """C20 hook: stepping a SYNCHRONOUS generator allocates nothing of its own.  Synchronous bodies only (co_yield,
+    co_yield nullptr, throw, return), every access style (next()/value(), iterator / range-for, gen() future polled,
+    waited, awaited and consumed by a callback awaiter, co_await next(), next().subscribe()); the replayer counts the
+    global operator new calls made inside the consumer's accesses (generator_replay.cpp: Win / Pause) and the
+    projection fixes that running total at 0 in every state.  Capped edge cover, a few seconds of replay."""
+    rp = vlib.compile_harness(vlib.VERIF + "/harness/generator_replay.cpp", "generator_replay", sanitize=not ctx.quick)
+    jobs = [("Generator_noarg.cfg", "gen_alloc", False, {"BodyKinds": '{"yield", "throw", "return"}'}),
+            ("Generator_arg.cfg", "gen_alloc_arg", True, {"BodyKinds": '{"ynull", "yield", "throw", "return"}'})]
+    for (cfg, tag, witharg, consts) in jobs:
+        consts = dict(consts)
+        consts["EarlyDestroy"] = "FALSE"
+        if not ctx.quick:
+            consts.update({"MaxBody": "5", "MaxAcc": "5"})
+
+        def hdr(k, st0, witharg=witharg):
+            return {"witharg": witharg, "modes": ["native", "coro", "cb"]}
+        replay(ctx, "Generator", "Generator", cfg, tag, rp, proj, header_fn=hdr, merge_re=MERGE,
+               must_take=["NextSync", "NextAsync", "NextFuture", "BodyStep", "YieldSuspend", "UnblockSync", "UnblockFuture",
+                          "ResumeAwt", "FinalSuspend", "Destroy"],
+               constants=consts, max_paths=2500 if ctx.quick else None, replay_timeout=900, tlc_kw={"workers": 4})
+    ctx.assume("generator: allocations are the global operator new calls made by the consumer's thread inside an access of a "
+               "generator whose body is synchronous; the generator's and the consumer coroutines' frames and the consumer's own "
+               "future objects are created outside the accesses; an exception thrown by the body is allocated by the C++ runtime "
+               "with malloc (__cxa_allocate_exception), not operator new, and is not counted")
+
+
 def run(ctx):
     rp = vlib.compile_harness(vlib.VERIF + "/harness/generator_replay.cpp", "generator_replay", sanitize=not ctx.quick)
     q = ctx.quick
